@@ -16,8 +16,9 @@
      C_drain08  event_source.drain(): read_to_end on the socket until WouldBlock — taken as one
                 atomic step (it ends with a read that finds the socket empty)   mio_source.rs:122-136
      C_fill     fill_and_lock_local_datasample_cache: try_take_one per step (topic-cache mutex) until
-                None (datareader.rs:100-107); then select/take from the local cache: one sample
-                handed to the application (-> next take_next_sample) or none (-> back to poll)
+                None (datareader.rs:100-107)
+     C_pop      select/take from the local cache (no shared cell): one sample handed to the
+                application (-> next take_next_sample) or none (-> back to poll)
 
    Readiness delivery (assumptions of C13, checked against the real mio/epoll by the driver):
      mio-0.8 / epoll edge-triggered: a write to the socket makes the registration ready ([ev08]);
@@ -37,7 +38,7 @@ Module B.
 
 Inductive variant := V06 | V08.
 Inductive ppc := P_insert | P_wake | P_poll | P_chan.
-Inductive cpc := C_poll | C_drain06 | C_drain08 | C_fill.
+Inductive cpc := C_poll | C_drain06 | C_drain08 | C_fill | C_pop.
 
 Record st := mk {
   var : variant;
@@ -104,7 +105,9 @@ Definition stepC (s : st) : st :=
   | C_fill =>
       if taken <? ins
       then mk v n pcap c06 ins (taken + 1) (loc + 1) deliv pipe ev08 q06 qd06 pp C_fill takes events empties
-      else if 0 <? loc
+      else mk v n pcap c06 ins taken loc deliv pipe ev08 q06 qd06 pp C_pop takes events empties
+  | C_pop =>
+      if 0 <? loc
       then mk v n pcap c06 ins taken (loc - 1) (deliv + 1) pipe ev08 q06 qd06 pp C_drain06 (takes + 1) events empties
       else mk v n pcap c06 ins taken loc deliv pipe ev08 q06 qd06 pp C_poll (takes + 1) events (empties + 1)
   end.
